@@ -1052,3 +1052,9 @@ def _(ctx):
             ctx.sides('%s.path%d' % (fn, k), s, pre)
         ctx.record('%s.paths' % fn, PROVED if n >= 1 else FAILED, 'B', 0, '%d paths outside the 1/4 window' % n)
 from contracts import spec_source as _ss; _ss.register_c02()  # noqa: provenance of the transcribed definitions (math/ffunctions.m)
+
+# f_CSd, f_CSu, FCWu, FCWd return "the value of their defining expression" next to the zeros of the Kaellen function only if phi_over_y's guards recognise the coincidence in
+# floating-point arithmetic: C11's noise-floor contract on those guards is a callee contract of C02 as well.
+from contracts.shared import reregister as _rr_c02
+from contracts import c11 as _c11_c02
+_rr_c02('C02', 'C11', 'C11.guards_above_noise_floor.phi_over_y', 'C02.callee.guards_above_noise_floor.phi_over_y')
